@@ -75,6 +75,8 @@ def main():
         shutil.rmtree(scratch, ignore_errors=True)
         # evidence written by a run against a scratch tree is not evidence for /repo: restore
         sh(['git', 'checkout', '--', 'evidence'], cwd=VERIF)
+        # ... and the files regenerated from the scratch tree's sources are not those of /repo
+        sh(['git', 'checkout', '--', 'lean/BufrModel/Gen'], cwd=VERIF)
 
 
 if __name__ == '__main__':
